@@ -84,7 +84,7 @@ def gen_block(r):
         # intact delimiter text of the wire / log formats inside the block (inside one segment or across two)
         b = bytearray(r.randrange(256) for _ in range(1024))
         for _ in range(r.randrange(1, 6)):
-            t = r.choice([b"</DATAS>", b"<DATAS>", b"</PACKT>", b"<PACKT><SRCCN>", b"STATV", b"</DATAS></PACKT>", b"b'</DATAS>'", b"\" from ('10.0.0.1', 10022)", b"' from ("])
+            t = r.choice([b"</DATAS>", b"<DATAS>", b"</PACKT>", b"<PACKT><SRCCN>", b"STATV", b"</DATAS></PACKT>", b"b'</DATAS>'", b"\" from ('10.0.0.1', 10022)", b"' from (", b"['0x41', '0x42']", b"['0x1']", b"Snapshot (x)", b"Config version 3", b"Spa pack inXM 1 v2.3"])
             at = r.randrange(0, 1024 - len(t))
             b[at : at + len(t)] = t
         return style, bytes(b)
@@ -131,7 +131,7 @@ def part_a(sh: Shard, seed, n):
         spa.config_number = r.randrange(256)
         spa.config_version, spa.log_version = r.randrange(1, 256), r.randrange(1, 256)
         spa.pack_type = spa.new_pack_class.type
-        name = r.choice(["Heating", "Pump 1, 2 and blower running", "all off", "x", "a (b) c", "EconomyMode-Active_2", "".join(r.choice("abcdefghijklmnopqrstuvwxyzABC 0123456789-_.,()") for _ in range(r.randrange(1, 30)))])
+        name = r.choice(["Heating", "Pump 1, 2 and blower running", "all off", "x", "a (b) c", "EconomyMode-Active_2", "before Config version 3 upgrade", "after Log version 7 change", "intouch version EN 1 v2.3 installed", "Spa pack inXM 5 v1.2 as shipped", "Got spa configuration Type 1 - CFG 2/LOG 3", "".join(r.choice("abcdefghijklmnopqrstuvwxyzABC 0123456789-_.,()") for _ in range(r.randrange(1, 30)))])
 
         class F:
             pass
@@ -219,6 +219,12 @@ def part_b(sh: Shard, seed, n):
             client.add_receive_handler(GeckoPacketProtocolHandler(socket=client))
             with Capture(path, logging.DEBUG):
                 logging.getLogger("geckolib.spa").info("Starting spa connection handshake...")
+                if r.random() < 0.3 and len(sent) > 3:
+                    # an earlier connection attempt in the same log that was abandoned part way
+                    for dg in sent[: r.randrange(1, len(sent) - 1)]:
+                        client.dispatch_recevied_data(dg, ("10.0.0.1", 10022))
+                    logging.getLogger("geckolib.spa").info("Starting spa connection handshake...")
+                    sh.count("traffic_logs_with_an_abandoned_first_attempt")
                 for dg in sent:
                     client.dispatch_recevied_data(dg, ("10.0.0.1", 10022))
             snaps, dbg_problem = parse_both_ways(GeckoSnapshot, path)
